@@ -2,6 +2,7 @@
 //! and prints canonical observations. One sub-command per engine.
 mod ast;
 mod codec;
+mod decparams;
 mod interp;
 mod interp_ftx;
 mod climits;
@@ -44,6 +45,7 @@ fn main() {
         "sat" => sat::run(&args[2..]),
         "rawpkh" => rawpkh::run(&args[2..]),
         "codec" => codec::run(&args[2..]),
+        "decparams" => decparams::run(&args[2..]),
         "interp" => interp::run(&args[2..]),
         "compile" => compile::run(&args[2..]),
         "compile-one" => compile::run_one(&args[2..]),
